@@ -35,7 +35,7 @@ FIELDS = {
     "EVQECircuitLayer": ["n_qubits", "gates"],
     "EVQEIndividual": ["n_qubits", "layers", "parameter_values"],
     "EVQEPopulation": ["individuals", "species_representatives", "species_members", "species_membership"],
-    "QuasiDistribution": ["<data>", "shots", "stddev_upper_bound"],
+    "QuasiDistribution": ["<data>", "shots", "stddev_upper_bound", "<width of binary_probabilities() keys>"],
     "BasePopulationEvaluationResult": ["population", "expectation_values", "best_individual", "best_expectation_value"],
     "EvolvingAnsatzMinimumEigensolverResult": ["eigenvalue", "aux_operators_evaluated", "eigenstate", "best_individual",
                                                "circuit_evaluations", "generations", "population_evaluation_results",
@@ -147,7 +147,11 @@ def to_pv(o):
     name = t.__name__
     if name in FIELDS and classes()[name] is t:
         if name == "QuasiDistribution":
-            return {"o": name, "a": [{"d": [[to_pv(k), to_pv(v)] for k, v in dict.items(o)]}, to_pv(o.shots), to_pv(o.stddev_upper_bound)]}
+            # the fourth field is the width binary_probabilities() pads to (_num_bits; what the model carries); "bp" is the public
+            # API's answer itself, compared by the oracle in addition
+            return {"o": name, "a": [{"d": [[to_pv(k), to_pv(v)] for k, v in dict.items(o)]}, to_pv(o.shots), to_pv(o.stddev_upper_bound),
+                                     to_pv(getattr(o, "_num_bits", None))],
+                    "bp": [[k, to_pv(v)] for k, v in o.binary_probabilities().items()]}
         return {"o": name, "a": [to_pv(getattr(o, f)) for f in FIELDS[name]]}
     return {"x": f"{t.__module__}.{t.__qualname__}:{o!r}"[:200]}
 
@@ -187,7 +191,11 @@ def from_pv(pv):
                 setattr(r, f, a)
             return r
         if name == "QuasiDistribution":
-            return cls(args[0], shots=args[1], stddev_upper_bound=args[2])
+            data, width = args[0], (args[3] if len(args) > 3 else None)
+            if pv.get("ctor") == "bits" and data and width:
+                # as measure_quasi_distributions builds it: from bitstring keys (leading zeros carry the width)
+                data = {format(k, "b").zfill(width): v for k, v in data.items()}
+            return cls(data, shots=args[1], stddev_upper_bound=args[2])
         return cls(*args)
     raise ValueError(f"cannot rebuild {pv!r}")
 
@@ -327,6 +335,8 @@ def py_diff(a, b, path="x"):
         d = py_diff(x, y, f"{path}.{f}")
         if d:
             return d
+    if "bp" in a and "bp" in b:
+        return py_diff({"d": a["bp"]}, {"d": b["bp"]}, f"{path}.binary_probabilities()")
     return None
 
 
@@ -501,9 +511,17 @@ def gen_popeval(rng, n=None):
 
 
 def gen_quasi(rng):
+    """int outcomes -> quasi-probabilities; built from bitstring keys (leading zeros: the width exceeds the largest outcome's
+    bit length, as for measured registers), from int keys, or empty"""
     keys = rng.sample(range(0, 9), rng.randint(0, 4))
     data = [[k, rng.choice([0.5, 0.25, 1.0, 0.0, -0.125, 1, rng.random()])] for k in keys]
-    return obj("QuasiDistribution", {"d": data}, rng.choice([None, 1, 1000, 1024]), rng.choice([None, 0.0, 0.03125, 1.0, rng.random()]))
+    shots, bound = rng.choice([None, 1, 1000, 1024]), rng.choice([None, 0.0, 0.03125, 1.0, rng.random()])
+    if not keys:
+        return {"o": "QuasiDistribution", "a": [{"d": []}, shots, bound, 0], "ctor": "ints"}
+    minimal = max(1, max(keys).bit_length())
+    if rng.random() < 0.3:
+        return {"o": "QuasiDistribution", "a": [{"d": data}, shots, bound, minimal], "ctor": "ints"}
+    return {"o": "QuasiDistribution", "a": [{"d": data}, shots, bound, minimal + rng.choice([0, 1, 1, 2, 5])], "ctor": "bits"}
 
 
 def gen_scalar(rng):
